@@ -1,14 +1,19 @@
 import OsacaVerif.Model.LCD
 import OsacaVerif.Spec.Deps
+import OsacaVerif.Lemmas.ScanLocal
+import OsacaVerif.Lemmas.Rotation
+import OsacaVerif.Props.C05
 /-
   C14 — Loop-carried dependencies are invariant under rotation of the loop body.
 
-  TODO-FULL (central statement, not yet proved; decided by the metamorphic correspondence on the
-  implementation and on the model):
-    theorem lcd_rotation_invariant (isa fd par floor) (k : List Ins) (n : Nat) (hwf : WFKernel k) :
-      cyclesAsSets (lcd isa fd par floor (rotate n k)) ≈ cyclesAsSets (lcd isa fd par floor k)
-        (same member instructions, same latencies)
-  Proved below: the structural facts about rotation the statement rests on.
+  Central statement (proved below, for every kernel with strictly increasing line numbers and every
+  rotation offset `r ≤ |k|`): `lcd_rotation_invariant` — the entries reported for the rotated body
+  and for the body correspond one to another with the same member instructions (identified by their
+  position in the original body) carrying the same edge latencies, hence the same total latency.
+  It rests on: stream locality of the scans (`scanTarget_append`, `scanMem_append`, `stream_local`),
+  locality of the graph (`C05.dg_local`), the characterisation of the reported entries as the
+  winding-1 dependency cycles of the stream `k^ω` (`C05.lcd_sound`, `C05.lcd_complete`), and the fact
+  that rotating the body shifts the stream relation (`streamDep_rotate`), which is periodic.
 -/
 namespace OsacaVerif.Props.C14
 open OsacaVerif OsacaVerif.DG OsacaVerif.LCD
@@ -54,6 +59,249 @@ theorem renumber_lines (k : List Ins) : (renumber k).map (·.line) = (List.range
   · simp
   · intro j h1 h2
     simp
+
+/-! ### stream locality of the producer's scan -/
+
+/-- **scanTarget_append** (stream locality, registers / flags; ∀ streams): what a producer's scan
+    for target `t` emits over `a ++ b` is what it emits over `a`, followed — unless an instruction of
+    `a` overwrote `t` — by what it emits over `b`.  So the emissions up to a point of the stream
+    depend only on the stream segment up to that point. -/
+theorem scanTarget_append (isa : Isa) (t : Target) (tag : Tag) (a b : List Ins) :
+    scanTarget isa t tag (a ++ b) =
+      scanTarget isa t tag a ++ (if a.any (isWritten isa t) then [] else scanTarget isa t tag b) :=
+  DG.scanTarget_append isa t tag a b
+
+/-- **scanMem_append** (stream locality, memory destinations): the same for the store→load scan;
+    the register-change state is threaded through `a` (`memThread`) and the scan ends at a
+    write-back overwrite of the base or at a store to the same operand (`memStops`). -/
+theorem scanMem_append (isa : Isa) (m : Mem) (s : RegState) (a b : List Ins) :
+    scanMem isa m s (a ++ b) =
+      scanMem isa m s a ++ (if a.any (memStops isa m) then [] else scanMem isa m (memThread s a) b) :=
+  DG.scanMem_append isa m s a b
+
+/-- **window_suffices** (one statement per scan kind, then for the producer as a whole):
+    if any instruction of the prefix `a` (e.g. one full iteration) writes `t`, nothing is emitted
+    beyond `a`; the memory scan likewise; and the producer's own next occurrence `p'` (same
+    destinations) ends every scan of `p`, so no dependency spans more than one full iteration and two
+    kernel copies contain every edge.  Register destinations must be self-dependent (`ReflDests`,
+    C12 reflexivity; unconditional on x86: `reflDests_x86`). -/
+theorem window_suffices (isa : Isa) (fd : Bool) :
+    (∀ (t : Target) (tag : Tag) (a b : List Ins), a.any (isWritten isa t) = true →
+      scanTarget isa t tag (a ++ b) = scanTarget isa t tag a) ∧
+    (∀ (m : Mem) (s : RegState) (a b : List Ins), a.any (memStops isa m) = true →
+      scanMem isa m s (a ++ b) = scanMem isa m s a) ∧
+    (∀ (p p' : Ins) (rest more : List Ins), p'.dst = p.dst → p'.srcDst = p.srcDst → ReflDests isa p →
+      findDepending isa fd p (rest ++ p' :: more) = findDepending isa fd p (rest ++ [p'])) :=
+  ⟨fun t tag a b h => scanTarget_window isa t tag a b h,
+   fun m s a b h => scanMem_window isa m s a b h,
+   fun p p' rest more hd hsd hr => findDepending_window isa fd p p' rest more hd hsd hr⟩
+
+/-- on x86 the window property needs no hypothesis about the registers -/
+theorem window_suffices_x86 (fd : Bool) (p p' : Ins) (rest more : List Ins)
+    (hd : p'.dst = p.dst) (hsd : p'.srcDst = p.srcDst) :
+    findDepending .x86 fd p (rest ++ p' :: more) = findDepending .x86 fd p (rest ++ [p']) :=
+  findDepending_window .x86 fd p p' rest more hd hsd (reflDests_x86 p)
+
+/-- **window_suffices_all**: the producer-level window property holds for every ISA and every
+    producer without any hypothesis: in the model as written a register that is not self-dependent
+    depends on nothing at all (`regDep_dead_or_refl`), so its scans emit nothing anyway. -/
+theorem window_suffices_all (isa : Isa) (fd : Bool) (p p' : Ins) (rest more : List Ins)
+    (hd : p'.dst = p.dst) (hsd : p'.srcDst = p.srcDst) :
+    findDepending isa fd p (rest ++ p' :: more) = findDepending isa fd p (rest ++ [p']) :=
+  findDepending_window_all isa fd p p' rest more hd hsd
+
+/-- **stream_local** (dependency of an occurrence on an earlier one, as a function of the segment
+    between them): of all emissions of producer `p` over the stream `seg ++ c :: more`, those naming
+    consumer `c` are `tagsAt isa fd p seg c` — a function of `p`, the segment strictly between, and
+    `c`; nothing after `c` matters, `findDepending` never sees anything before `p`, and line numbers
+    play no role (`tagsAt_erase`). -/
+theorem stream_local (isa : Isa) (fd : Bool) (p : Ins) (seg more : List Ins) (c : Ins)
+    (h1 : ∀ x ∈ seg, x.line ≠ c.line) (h2 : ∀ x ∈ more, x.line ≠ c.line) :
+    (findDepending isa fd p (seg ++ c :: more)).filter (fun x => x.1 == c.line) =
+      (tagsAt isa fd p seg c).map (fun tg => (c.line, tg)) ∧
+    tagsAt isa fd (eraseLine p) (seg.map eraseLine) (eraseLine c) = tagsAt isa fd p seg c :=
+  ⟨findDepending_at isa fd p seg more c h1 h2, tagsAt_erase isa fd p seg c⟩
+
+-- non-vacuity: producer `add rax` (line 1), one iteration [reader, own copy], then more readers: the
+-- own copy (a write of `rax`) ends the scan — the reader on line 4 is not reached; the producer's
+-- destinations are self-dependent; the emission naming line 2 is the `tagsAt` value
+example :
+    let r (n : String) : Op := .reg { name := Text.ofString n }
+    let mk (line : Nat) (src sd : List Op) : Ins :=
+      { line := line, src := src, dst := [], srcDst := sd, lat := 1, latWoLoad := none, hasLd := false,
+        isLd := false, changes := [], changesPost := [] }
+    let p := mk 1 [] [r "rax"]
+    findDepending .x86 false p ([mk 2 [r "eax"] [r "rbx"]] ++ mk 3 [] [r "rax"] :: [mk 4 [r "rax"] [r "rcx"]]) =
+      [(2, .plain), (3, .plain)] ∧
+    ([mk 2 [r "eax"] [r "rbx"], mk 3 [] [r "rax"]].any (isWritten .x86 (.reg { name := Text.ofString "rax" }))) = true ∧
+    tagsAt .x86 false p [] (mk 2 [r "eax"] [r "rbx"]) = [.plain] ∧
+    tagsAt .x86 false p [mk 2 [r "eax"] [r "rbx"], mk 3 [] [r "rax"]] (mk 4 [r "rax"] [r "rcx"]) = [] := by
+  decide +kernel
+
+/-! ### rotation invariance of the reported loop-carried dependencies -/
+
+/-- the rotated, renumbered body has strictly increasing lines 1, 2, …, |k| -/
+theorem rotate_wf (r : Nat) (k : List Ins) : WFKernel (rotate r k) := by
+  unfold WFKernel rotate
+  rw [renumber_lines, List.pairwise_map]
+  exact List.pairwise_lt_range.imp (fun h => by omega)
+
+theorem renumber_erase (k : List Ins) : (renumber k).map eraseLine = k.map eraseLine := by
+  unfold renumber
+  apply List.ext_getElem
+  · simp
+  · intro j h1 h2
+    simp [eraseLine]
+
+/-- **rotation shifts the stream relation**: the dependency relation of the rotated (and renumbered)
+    body between stream positions `x, y` is the relation of the original body between `x + r, y + r` -/
+theorem streamDep_rotate' (isa : Isa) (fd : Bool) (par : Params) (k : List Ins) (r : Nat) (hr : r ≤ k.length)
+    (x y : Nat) : streamDep isa fd par (rotate r k) x y = streamDep isa fd par k (x + r) (y + r) := by
+  rw [rotate, streamDep_congr isa fd par (rotateRaw r k) _ (renumber_erase _)]
+  exact streamDep_rotate isa fd par k r hr x y
+
+/-- position in the body of the instruction with line number `l` -/
+def posOf (k : List Ins) (l : Nat) : Nat := (k.map (·.line)).idxOf l
+
+/-- an entry as its members: (position of the instruction in the body, edge latency leaving it) -/
+def idxMembers (k : List Ins) (e : Entry) : List (Nat × Rat) :=
+  (e.lines.zip e.lats).map (fun x => (posOf k x.1, x.2))
+
+theorem posOf_lineAt (k : List Ins) (hwf : WFKernel k) (j : Nat) (hj : j < k.length) :
+    posOf k (lineAt k j) = j := by
+  have hnd : (k.map (·.line)).Nodup := by
+    unfold WFKernel at hwf; exact hwf.imp (fun h => Nat.ne_of_lt h)
+  have hj' : j < (k.map (·.line)).length := by simpa using hj
+  have := hnd.idxOf_getElem j hj'
+  rw [lineAt_lt k j hj]; unfold posOf; simpa using this
+
+theorem idxMembers_of_cycle (k : List Ins) (hwf : WFKernel k) (e : Entry) (a : List (Nat × Rat))
+    (hst : StartsBelow k.length a) (h : (e.lines.zip e.lats).Perm (C05.cycleMembers k a)) :
+    (idxMembers k e).Perm (a.map (fun x => (x.1 % k.length, x.2))) := by
+  have hn : 0 < k.length := by
+    cases a with
+    | nil => exact absurd hst (fun h => h)
+    | cons x _ => exact Nat.lt_of_le_of_lt (Nat.zero_le _) hst
+  unfold idxMembers
+  refine (h.map _).trans (List.Perm.of_eq ?_)
+  simp only [C05.cycleMembers, List.map_map]
+  apply List.map_congr_left
+  intro x _
+  simp only [Function.comp_apply]
+  rw [posOf_lineAt k hwf _ (Nat.mod_lt _ hn)]
+
+/-- **lcd_transfer**: two well-formed bodies of equal length whose stream relations differ by a shift
+    `s` report corresponding entries: same latencies, members shifted by `s` modulo the length. -/
+theorem lcd_transfer (isa : Isa) (fd : Bool) (par : Params) (floor : Nat) (k1 k2 : List Ins) (s : Nat)
+    (hwf1 : WFKernel k1) (hwf2 : WFKernel k2) (hlen : k2.length = k1.length) (hs : s ≤ k1.length)
+    (hD : ∀ x y, streamDep isa fd par k2 x y = streamDep isa fd par k1 (x + s) (y + s))
+    (e2 : Entry) (he2 : e2 ∈ lcd isa fd par floor k2) :
+    ∃ e1 ∈ lcd isa fd par floor k1,
+      (idxMembers k1 e1).Perm ((idxMembers k2 e2).map (fun x => ((x.1 + s) % k1.length, x.2))) ∧
+      e1.latency = e2.latency := by
+  obtain ⟨a2, hc2, hst2, hperm2, hlat2⟩ := C05.lcd_sound isa fd par floor k2 hwf2 e2 he2
+  have h2 := idxMembers_of_cycle k2 hwf2 e2 a2 hst2 hperm2
+  rw [hlen] at hc2 hst2 h2
+  obtain ⟨a1, hc1, hst1, hmap⟩ := cycle_transport (streamDep isa fd par k1) (streamDep isa fd par k2)
+    k1.length s hs hD (streamDep_periodic isa fd par k1) a2 hc2 hst2
+  obtain ⟨e1, he1, hperm1, hlat1⟩ := C05.lcd_complete isa fd par floor k1 hwf1 a1 hc1 hst1
+  have h1 := idxMembers_of_cycle k1 hwf1 e1 a1 hst1 hperm1
+  refine ⟨e1, he1, ?_, ?_⟩
+  · refine h1.trans ((List.Perm.of_eq ?_).trans (h2.map _).symm)
+    rw [hmap, List.map_map]
+    apply List.map_congr_left
+    intro x _
+    simp only [Function.comp_apply]
+    rw [Nat.mod_add_mod]
+  · rw [hlat1, hlat2]
+    have := congrArg (List.map (fun x : Nat × Rat => x.2)) hmap
+    simp only [List.map_map, Function.comp_def] at this
+    rw [this]
+
+/-- **lcd_rotation_invariant** (∀ kernels with strictly increasing lines, ∀ rotation offsets
+    `r ≤ |k|`): rotating the loop body does not change the reported loop-carried dependencies.
+    Instruction `j` of the rotated body is instruction `(j + r) mod |k|` of the original body; with
+    members identified this way, every entry reported for `k` has a counterpart reported for
+    `rotate r k` with the same member instructions carrying the same edge latencies (as multisets)
+    and the same total latency — and conversely.  (Latency sums are compared in ℚ.) -/
+theorem lcd_rotation_invariant (isa : Isa) (fd : Bool) (par : Params) (floor : Nat) (k : List Ins) (r : Nat)
+    (hwf : WFKernel k) (hr : r ≤ k.length) :
+    (∀ e ∈ lcd isa fd par floor k, ∃ e' ∈ lcd isa fd par floor (rotate r k),
+      ((idxMembers (rotate r k) e').map (fun x => ((x.1 + r) % k.length, x.2))).Perm (idxMembers k e) ∧
+      e'.latency = e.latency) ∧
+    (∀ e' ∈ lcd isa fd par floor (rotate r k), ∃ e ∈ lcd isa fd par floor k,
+      ((idxMembers (rotate r k) e').map (fun x => ((x.1 + r) % k.length, x.2))).Perm (idxMembers k e) ∧
+      e'.latency = e.latency) := by
+  have hlen := rotate_length r k
+  constructor
+  · intro e he
+    have hD : ∀ x y, streamDep isa fd par k x y =
+        streamDep isa fd par (rotate r k) (x + (k.length - r)) (y + (k.length - r)) := by
+      intro x y
+      rw [streamDep_rotate' isa fd par k r hr]
+      have e1 : x + (k.length - r) + r = x + k.length := by omega
+      have e2 : y + (k.length - r) + r = y + k.length := by omega
+      rw [e1, e2, streamDep_periodic]
+    obtain ⟨e', he', hperm, hlat⟩ := lcd_transfer isa fd par floor (rotate r k) k (k.length - r)
+      (rotate_wf r k) hwf hlen.symm (by rw [hlen]; omega) hD e he
+    refine ⟨e', he', ?_, hlat⟩
+    rw [hlen] at hperm
+    -- members of `e` are positions below |k|
+    obtain ⟨a, _, hst, hpa, _⟩ := C05.lcd_sound isa fd par floor k hwf e he
+    have hn : 0 < k.length := by
+      cases a with
+      | nil => exact absurd hst (fun h => h)
+      | cons x _ => exact Nat.lt_of_le_of_lt (Nat.zero_le _) hst
+    have hidx := idxMembers_of_cycle k hwf e a hst hpa
+    have hlt : ∀ x ∈ idxMembers k e, x.1 < k.length := by
+      intro x hx
+      obtain ⟨y, _, rfl⟩ := List.mem_map.mp (hidx.mem_iff.mp hx)
+      exact Nat.mod_lt _ hn
+    refine (hperm.map _).trans (List.Perm.of_eq ?_)
+    rw [List.map_map]
+    conv => rhs; rw [← List.map_id (idxMembers k e)]
+    apply List.map_congr_left
+    intro x hx
+    have := hlt x hx
+    simp only [Function.comp_apply, id]
+    refine Prod.ext ?_ rfl
+    simp only
+    rw [Nat.mod_add_mod]
+    have e1 : x.1 + (k.length - r) + r = x.1 + k.length := by omega
+    rw [e1, Nat.add_mod_right, Nat.mod_eq_of_lt this]
+  · intro e' he'
+    obtain ⟨e, he, hperm, hlat⟩ := lcd_transfer isa fd par floor k (rotate r k) r hwf (rotate_wf r k) hlen hr
+      (streamDep_rotate' isa fd par k r hr) e' he'
+    exact ⟨e, he, hperm.symm, hlat.symm⟩
+
+/-- the reported latencies (in particular the largest one, the LCD figure) do not change under rotation -/
+theorem lcd_rotation_latencies (isa : Isa) (fd : Bool) (par : Params) (floor : Nat) (k : List Ins) (r : Nat)
+    (hwf : WFKernel k) (hr : r ≤ k.length) (q : Rat) :
+    (∃ e ∈ lcd isa fd par floor k, e.latency = q) ↔ (∃ e' ∈ lcd isa fd par floor (rotate r k), e'.latency = q) := by
+  obtain ⟨h1, h2⟩ := lcd_rotation_invariant isa fd par floor k r hwf hr
+  constructor
+  · rintro ⟨e, he, rfl⟩
+    obtain ⟨e', he', _, hl⟩ := h1 e he
+    exact ⟨e', he', hl⟩
+  · rintro ⟨e', he', rfl⟩
+    obtain ⟨e, he, _, hl⟩ := h2 e' he'
+    exact ⟨e, he, hl.symm⟩
+
+-- non-vacuity of `lcd_rotation_invariant`: a three-instruction ring with lines 3 < 4 < 7 (well-formed),
+-- rotated by one: the single reported cycle keeps its members — instruction `j` of the rotated body is
+-- instruction `(j + 1) mod 3` of the original — each with its own edge latency, total 7
+example :
+    let r (n : String) : Op := .reg { name := Text.ofString n }
+    let mk (line : Nat) (src dst sd : List Op) (lat : Rat) : Ins :=
+      { line := line, src := src, dst := dst, srcDst := sd, lat := lat, latWoLoad := none, hasLd := false,
+        isLd := false, changes := [], changesPost := [] }
+    let k := [mk 3 [r "rbx"] [r "rax"] [] 4, mk 4 [r "rax"] [r "rcx"] [] 1, mk 7 [r "rcx"] [r "rbx"] [] 2]
+    WFKernel k ∧ WFKernel (rotate 1 k) ∧
+    (lcd .x86 false {} 1000 k).map (fun e => (idxMembers k e, e.latency)) = [([(0, 4), (1, 1), (2, 2)], 7)] ∧
+    (lcd .x86 false {} 1000 (rotate 1 k)).map (fun e =>
+      ((idxMembers (rotate 1 k) e).map (fun x => ((x.1 + 1) % 3, x.2)), e.latency)) = [([(1, 1), (2, 2), (0, 4)], 7)] ∧
+    streamDep .x86 false {} (rotate 1 k) 0 1 = streamDep .x86 false {} k 1 2 := by
+  decide +kernel
 
 -- non-vacuity: rotating the two-instruction accumulation loop keeps both cycles and their latencies
 example :
